@@ -64,8 +64,31 @@ def gen_twice(name, reg0, directives, mode, dedup=False, perms=None):
         return res
     return Family(name, mk, run, target_prefixes=48 if mode == "fork" else 1)
 
+def validation_family(reg0, mode):
+    """validation results, compared as sets, do not depend on iteration / registration order"""
+    import c11
+    dirs = ["derive_for pallet_a::pallet::Call => Da", "derive_for pallet_b::pallet::Call => Db", "attrtok_rec pallet_c::pallet::Call => ac", "derive_rec pallet_a::pallet::Call => Dr", "attrtok_for pallet_b::pallet::Call => ab",
+            "subst gone::Missing => ::ext::M", "subst other::Missing<T> => ::ext::N<T>"]
+    perms = list(itertools.permutations(range(4)))
+    def mk(eng): return [dirs[j] for j in perms[eng.choose([(i, True) for i in range(len(perms))])]] + dirs[4:]
+    def run(eng, d2):
+        res = {"violations": [], "outcome": "Ok"}
+        outs = []
+        for ho, dd in (("insertion", dirs), (mode, d2)):
+            eng.hash_order = ho
+            s = Settings(dd).apply(eng)
+            r = eng.call("validate_substitutes_and_derives_against_registry", [], [Slot(s.f, 3), Slot(s.f, 2), Slot([to_engine(reg0)], 0)])
+            got = c11.read_engine_result(eng, r)
+            outs.append(None if got is None else (sorted((p, tuple(v)) for p, v in got[0]), sorted((p, tuple(v)) for p, v in got[1]), sorted(got[2])))
+        eng.hash_order = "insertion"
+        case = {"op": "validate", "reg": regdsl.encode(reg0).hex(), "set": Settings(d2).replay()}
+        if outs[0] != outs[1]:
+            res["violations"].append({"what": "validation result (as sets) differs between two iteration/registration orders: %s vs %s" % (outs[0], outs[1]), "case": case, "case1": {"op": "validate", "reg": regdsl.encode(reg0).hex(), "set": Settings(dirs).replay()}, "kind": "nondeterminism-validation"})
+        return res
+    return Family("validation-sets-%s" % mode, mk, run, target_prefixes=48 if mode == "fork" else 4)
+
 def families(eng, tier, seed):
-    C = corpus(); fams = []
+    C = corpus(); fams = [validation_family(C["enum"], "fork"), validation_family(C["enum"], "reversed")]
     reach = C["reach"]
     b1 = next(i for i, t in enumerate(reach) if t["path"][-1:] == ["B1"]); small, _ = restrict(reach, [b1])
     p = lambda n: "::".join(next(t["path"] for t in small if t["path"][-1:] == [n]))
@@ -101,6 +124,13 @@ def families(eng, tier, seed):
 def confirm(v, real):
     if "panic" in real: return True
     if v["kind"] == "sorted": return real.get("result") == "Ok" and bool(sorted_problems(tokenize(real["tokens"])))
+    if v["kind"] == "nondeterminism-validation":
+        outs = set()
+        for r in run_replay([v["case1"], v["case"]] * 12):
+            def L(k):
+                x = r.get(k, []); return tuple(sorted(x if isinstance(x, list) else [x]))
+            outs.add((r.get("result"), L("derives"), L("attrs"), L("substs")))
+        return len(outs) > 1
     if v["kind"] == "nondeterminism":
         # the real build runs with random hash seeds: repeat both cases a number of times and look for any difference
         outs = set()
